@@ -32,8 +32,10 @@ def full_config(draw, modes=("vector", "scalar", "blobs", "blobs2", "blobs_auto"
     if bsel == "both" and d < 2:
         bsel = "periodic"
     idx = draw(st.permutations(list(range(d))))
-    periodic = [idx[0]] if bsel in ("periodic", "both") else None
-    reflective = [idx[1 if bsel == "both" else 0]] if bsel in ("reflective", "both") else None
+    # "no such coordinates" may be said as None or as an empty list
+    none_as = draw(st.sampled_from([None, None, []]))
+    periodic = [idx[0]] if bsel in ("periodic", "both") else none_as
+    reflective = [idx[1 if bsel == "both" else 0]] if bsel in ("reflective", "both") else (None if none_as is None else [])
     steps = draw(st.sampled_from([None, None, (1, 2), (2, 5)]))
     # one case in eight leaves n_particles to the constructor's default (2 * n_dim): very small batches
     np_default = draw(st.integers(0, 7)) == 0
